@@ -694,3 +694,34 @@ pub mod verif_hooks_psdcone_lapack {
         (c1, c2, Some(svd.factor(&mut tmp).is_ok()))
     }
 }
+
+// ---------------------------------------------------------------------------
+// verification hooks (feature `verif-hooks`), fifth group: a call-through for the
+// private `logdet_barrier` together with the matrix it hands to the Cholesky
+// engine, whether that factorization succeeds, and the factor.  No behaviour is added.
+// ---------------------------------------------------------------------------
+#[cfg(feature = "verif-hooks")]
+pub mod verif_hooks_psdcone_barrier {
+    use super::*;
+
+    /// `(logdet_barrier(x, dx, α), Q, ok, L)`: the value of the real (private) function,
+    /// the column-major n×n data of `workmat1` as handed to `chol1.factor` (`factor` only
+    /// reads it), whether a fresh Cholesky engine factors that same matrix, and the
+    /// column-major data of `chol1.L` after the call
+    pub fn logdet_barrier_parts<T: FloatT>(
+        k: &mut PSDTriangleCone<T>,
+        x: &[T],
+        dx: &[T],
+        α: T,
+    ) -> (T, Vec<T>, bool, Vec<T>) {
+        let v = k.logdet_barrier(x, dx, α);
+        let q = k.data.workmat1.data().to_vec();
+        let l = k.data.chol1.L.data().to_vec();
+        let n = k.n;
+        let mut Q = Matrix::<T>::zeros((n, n));
+        Q.data_mut().copy_from_slice(&q);
+        let mut chol = CholeskyEngine::<T>::new(n);
+        let ok = chol.factor(&mut Q).is_ok();
+        (v, q, ok, l)
+    }
+}
